@@ -8,6 +8,7 @@ by the branch that clones it first.
 """
 import ast
 import builtins
+import functools
 import math
 import types
 import typing
@@ -634,6 +635,13 @@ class Interp:
                 return
             if isinstance(a, property):
                 yield from self.call_value(SBound(a.fget, o), [], {}, st, node)
+            elif isinstance(a, functools.cached_property):
+                # computed on first access, then stored on the instance under the same name
+                for r, s1 in self.call_value(SBound(a.func, o), [], {}, st, node):
+                    if not isinstance(r, Raised):
+                        o1 = find_by_oid(s1, o.oid) or o
+                        o1.fields[name] = r
+                    yield r, s1
             elif isinstance(a, types.FunctionType):
                 yield SBound(a, o), st
             elif isinstance(a, staticmethod):
